@@ -143,7 +143,10 @@ class Normalizer:
                     self._depth -= 1
             return self.rename(e.id)
         if isinstance(e, ast.Attribute):
-            return self.rename(self.expr_str(e.value) + "." + e.attr)
+            base = self.expr_str(e.value)
+            if isinstance(e.value, (ast.BinOp, ast.UnaryOp, ast.Compare, ast.BoolOp)):
+                base = "(" + base + ")"
+            return self.rename(base + "." + e.attr)
         if isinstance(e, ast.Call):
             fn = self.expr_str(e.func)
             args = [self._argstr(a) for a in e.args]
